@@ -126,4 +126,192 @@ theorem good_triplesOfNsA (d : NamespaceA) (hw : WFNs d.strip) (ha : AnnsOKNs d)
   · have := hw.2.2 y.2 (by simp only [NamespaceA.strip, List.mem_map]; exact ⟨y, hy, rfl⟩)
     exact ⟨(ha.2.2 y hy).1, (ha.2.2 y hy).2, goodDecl_action _ _ this⟩
 
+/-! ### whole annotated fragments -/
+
+
+theorem parseItemsA_declStart (f : Nat) (toks r : List Tok) (a : AnnsJ) (hne : toks ≠ [])
+    (hp : parseAnnotations toks = some (a, r)) (h : isDeclStart r = true) :
+    parseItemsA (f + 1) toks = (match parseDecl r with
+      | some (d, r') =>
+        (match parseItemsA f r' with
+          | some its => some (.decl a d :: its)
+          | none => none)
+      | none => none) := by
+  have : ∃ k tl, r = .id k :: tl ∧ k ≠ "namespace" := by
+    unfold isDeclStart at h
+    split at h <;> simp_all
+  obtain ⟨k, tl, rfl, hk⟩ := this
+  cases toks with
+  | nil => exact absurd rfl hne
+  | cons t ts =>
+    simp only [parseItemsA, hp]
+    split
+    · rename_i heq; simp at heq
+    · rename_i heq
+      simp only [Option.some.injEq, Prod.mk.injEq, List.cons.injEq, Tok.id.injEq] at heq
+      exact absurd heq.2.1 hk
+    · rename_i heq
+      simp only [Option.some.injEq, Prod.mk.injEq] at heq
+      obtain ⟨rfl, rfl⟩ := heq
+      rfl
+
+theorem printAnns_append_ne_nil (a : AnnsJ) (R : List Tok) (h : R ≠ []) : printAnns a ++ R ≠ [] := by
+  cases a with
+  | nil => simpa [printAnns] using h
+  | cons x xs => obtain ⟨k, v⟩ := x; cases v <;> simp [printAnns]
+
+theorem parseItemsA_triples : ∀ (L : List (AnnsJ × List Tok × DeclC)) (fuel : Nat) (rest : List Tok) (its : List ItemA),
+    (∀ x ∈ L, WFAnns x.1 ∧ KeysSorted x.1 ∧ GoodDecl x.2.1 x.2.2) → (∀ f', fuel ≤ f' → parseItemsA f' rest = some its) →
+    ∀ f', fuel + L.length ≤ f' →
+      parseItemsA f' (printTriples L ++ rest) = some (L.map (fun x => ItemA.decl (normAnns x.1) x.2.2) ++ its)
+  | [], fuel, rest, its, _, h => by
+    intro f' hf'
+    simpa [printTriples] using h f' (by simpa using hf')
+  | (a, P, D) :: L, fuel, rest, its, hg, h => by
+    intro f' hf'
+    simp only [List.length_cons] at hf'
+    obtain ⟨g, rfl⟩ : ∃ g, f' = g + 1 := ⟨f' - 1, by omega⟩
+    have ih := parseItemsA_triples L fuel rest its (fun x hx => hg x (List.mem_cons_of_mem _ hx)) h g (by omega)
+    obtain ⟨hwa, hka, hgd⟩ := hg (a, P, D) (by simp)
+    obtain ⟨hst, hp⟩ := hgd (printTriples L ++ rest)
+    have hann := parseAnnotations_print a hwa hka (P ++ (printTriples L ++ rest)) (startsId_of_isDeclStart _ hst)
+    have hne : printAnns a ++ (P ++ (printTriples L ++ rest)) ≠ [] := by
+      apply printAnns_append_ne_nil
+      intro h0; rw [h0] at hst; simp [isDeclStart] at hst
+    simp only [printTriples, List.append_assoc]
+    rw [parseItemsA_declStart g _ _ _ hne hann hst, hp]
+    simp only [ih, List.map_cons, List.cons_append]
+
+def WFNamedA (l : List (QName × AnnsJ × NamespaceA)) : Prop :=
+  ∀ x ∈ l, (∀ c ∈ x.1.comps, validId c = true) ∧ x.1.isReserved = false ∧ WFNs x.2.2.strip ∧
+    WFAnns x.2.1 ∧ KeysSorted x.2.1 ∧ AnnsOKNs x.2.2
+
+def namedFuelA : List (QName × AnnsJ × NamespaceA) → Nat
+  | [] => 1
+  | (_, _, d) :: l => nsCount d.strip + 2 + namedFuelA l
+
+theorem triplesOfNsA_length (d : NamespaceA) : (triplesOfNsA d).length = nsCount d.strip := by
+  simp [triplesOfNsA, nsCount, NamespaceA.strip]; omega
+
+theorem parseItemsA_named : ∀ (l : List (QName × AnnsJ × NamespaceA)), WFNamedA l → ∀ f', namedFuelA l ≤ f' →
+    parseItemsA f' (printNamedA l) =
+      some (l.map fun x => ItemA.ns (normAnns x.2.1) x.1 ((triplesOfNsA x.2.2).map fun y => (normAnns y.1, y.2.2)))
+  | [], _, f', hf => by
+    obtain ⟨g, rfl⟩ : ∃ g, f' = g + 1 := ⟨f' - 1, by simp [namedFuelA] at hf; omega⟩
+    simp [printNamedA, parseItemsA]
+  | (q, a, d) :: l, hw, f', hf => by
+    simp only [namedFuelA] at hf
+    obtain ⟨g, rfl⟩ : ∃ g, f' = g + 1 := ⟨f' - 1, by omega⟩
+    obtain ⟨hq, hres, hd, hwa, hka, hao⟩ := hw (q, a, d) (by simp)
+    have ih := parseItemsA_named l (fun x hx => hw x (List.mem_cons_of_mem _ hx)) g (by omega)
+    have hdl := parseDeclListA_triples (triplesOfNsA d) g (.rb :: printNamedA l) (good_triplesOfNsA d hd hao)
+      (by simp [isDeclStart]) (by simp [startsId]) (by rw [triplesOfNsA_length]; omega)
+    rw [printTriples_nsA] at hdl
+    obtain ⟨s, tl, h1, h2⟩ := parsePath_print q (.lb :: (printNsA d ++ .rb :: printNamedA l)) hq (by simp [OkRest])
+    have hann := parseAnnotations_print a hwa hka
+      (.id "namespace" :: (printName q ++ .lb :: (printNsA d ++ .rb :: printNamedA l))) (by simp [startsId])
+    simp only [printNamedA]
+    rw [h1] at hann ⊢
+    have hne : printAnns a ++ (.id "namespace" :: .id s :: tl) ≠ [] := printAnns_append_ne_nil _ _ (by simp)
+    cases htoks : printAnns a ++ (.id "namespace" :: .id s :: tl) with
+    | nil => exact absurd htoks hne
+    | cons t ts =>
+      rw [htoks] at hann
+      simp only [parseItemsA, hann, h2, hdl, hres, ih, List.map_cons]
+      simp
+
+theorem printTriples_length : ∀ (L : List (AnnsJ × List Tok × DeclC)), (∀ x ∈ L, WFAnns x.1 ∧ KeysSorted x.1 ∧ GoodDecl x.2.1 x.2.2) →
+    L.length ≤ (printTriples L).length
+  | [], _ => by simp
+  | (a, P, D) :: L, hg => by
+    have ih := printTriples_length L (fun x hx => hg x (List.mem_cons_of_mem _ hx))
+    have hp : 1 ≤ P.length := by
+      have := ((hg (a, P, D) (by simp)).2.2 []).1
+      cases P with
+      | nil => simp [isDeclStart] at this
+      | cons t ts => simp
+    simp only [printTriples, List.length_cons, List.length_append]
+    omega
+
+theorem namedFuelA_le_length : ∀ (l : List (QName × AnnsJ × NamespaceA)), WFNamedA l → namedFuelA l ≤ (printNamedA l).length + 1
+  | [], _ => by simp [namedFuelA]
+  | (q, a, d) :: l, hw => by
+    have ih := namedFuelA_le_length l (fun x hx => hw x (List.mem_cons_of_mem _ hx))
+    obtain ⟨_, _, hd, _, _, hao⟩ := hw (q, a, d) (by simp)
+    have h1 := printTriples_length (triplesOfNsA d) (good_triplesOfNsA d hd hao)
+    rw [printTriples_nsA, triplesOfNsA_length] at h1
+    have h2 := printName_length q
+    simp only [namedFuelA, printNamedA, List.length_cons, List.length_append]
+    omega
+
+/-- the annotated items a printed annotated fragment denotes: the declarations of `itemsOf` (un-annotated theorem), every annotation
+map in its `normAnns` form -/
+def itemsOfA (f : FragmentA) : List ItemA :=
+  (match f.empty with
+    | some d => (triplesOfNsA d).map (fun x => ItemA.decl (normAnns x.1) x.2.2)
+    | none => []) ++
+  f.named.map fun x => ItemA.ns (normAnns x.2.1) x.1 ((triplesOfNsA x.2.2).map fun y => (normAnns y.1, y.2.2))
+
+theorem parseItemsA_fragment (f : FragmentA) (hwe : ∀ d, f.empty = some d → WFNs d.strip ∧ AnnsOKNs d) (hwn : WFNamedA f.named) :
+    parseItemsA ((printFragmentA f).length + 1) (printFragmentA f) = some (itemsOfA f) := by
+  obtain ⟨e, named⟩ := f
+  simp only at hwe hwn
+  have hn := parseItemsA_named named hwn
+  have hlen := namedFuelA_le_length named hwn
+  cases e with
+  | none =>
+    simp only [printFragmentA, itemsOfA, List.nil_append]
+    exact hn _ (by omega)
+  | some d =>
+    have hg := good_triplesOfNsA d (hwe d rfl).1 (hwe d rfl).2
+    have h := parseItemsA_triples (triplesOfNsA d) (namedFuelA named) (printNamedA named) _ hg hn
+    have hl := printTriples_length (triplesOfNsA d) hg
+    rw [printTriples_nsA] at h hl
+    simp only [printFragmentA, itemsOfA]
+    exact h _ (by simp only [List.length_append]; omega)
+
+theorem itemsOfA_strip (f : FragmentA) : (itemsOfA f).map ItemA.strip = itemsOf f.strip := by
+  obtain ⟨e, named⟩ := f
+  have hs : ∀ d : NamespaceA, (triplesOfNsA d).map (·.2.2) = declsOfNs d.strip := by
+    intro d
+    simp [triplesOfNsA, declsOfNs, pairsOfNs, pairsOfCommons, pairsOfEntities, pairsOfActions, NamespaceA.strip, Function.comp_def]
+  cases e with
+  | none =>
+    simp only [itemsOfA, itemsOf, FragmentA.strip, List.nil_append, List.map_map, Option.map_none]
+    apply List.map_congr_left
+    intro x _
+    simp [ItemA.strip, Function.comp_def, ← hs]
+  | some d =>
+    simp only [itemsOfA, itemsOf, FragmentA.strip, List.map_append, List.map_map, Option.map_some]
+    congr 1
+    · have := hs d
+      simp only [declsOfNs] at this
+      have h2 := congrArg (List.map ItemC.decl) this
+      simpa [List.map_map, Function.comp_def, ItemA.strip] using h2
+    · apply List.map_congr_left
+      intro x _
+      simp [ItemA.strip, Function.comp_def, ← hs]
+
+/-- well-formedness of an annotated fragment: the un-annotated conditions of `WFFrag` on the content, identifier keys in `BTreeMap`
+order in every annotation map -/
+def WFFragA (f : FragmentA) : Prop := (∀ d, f.empty = some d → WFNs d.strip ∧ AnnsOKNs d) ∧ WFNamedA f.named
+
+theorem wfFrag_strip (f : FragmentA) (h : WFFragA f) : WFFrag f.strip := by
+  obtain ⟨e, named⟩ := f
+  obtain ⟨he, hn⟩ := h
+  simp only at he hn
+  refine ⟨?_, ?_⟩
+  · intro d hd
+    cases e with
+    | none => simp [FragmentA.strip] at hd
+    | some d0 =>
+      simp only [FragmentA.strip, Option.map_some, Option.some.injEq] at hd
+      subst hd
+      exact (he d0 rfl).1
+  · intro x hx
+    simp only [FragmentA.strip, List.mem_map] at hx
+    obtain ⟨y, hy, rfl⟩ := hx
+    obtain ⟨h1, h2, h3, _⟩ := hn y hy
+    exact ⟨h1, h2, h3⟩
+
 end Cedar.SchemaSyntax
